@@ -47,15 +47,15 @@ func hasSubDef(nodes []gen.Node) bool {
 func c13Variants(rng *gen.Rng, i int) ([]c13Variant, [][]byte) {
 	sc := gen.DefaultScope
 	sc.Captures, sc.BackRefs, sc.Globals, sc.Preds = false, false, false, false
-	sc.Subs = i%3 != 0
-	sc.MaxDepth = 2 + i%2
+	sc.Subs = rng.Chance(2, 3)
+	sc.MaxDepth = 2 + rng.Intn(2)
 	pg := gen.NewPG(rng, sc)
 	B := append([]gen.Node{pg.Node(0)}, pg.Items(sc.MaxDepth, 1+rng.Intn(2))...)
 	// make sure relocatable constructs occur in B
-	if i%2 == 0 {
+	if rng.Bool() {
 		B = append(B, gen.Or{Alts: []gen.Node{gen.Lit{S: "a"}, gen.Lit{S: "b"}}})
 	}
-	if i%5 == 0 {
+	if rng.Chance(1, 5) {
 		B = append(B, gen.In{Not: true, Items: []gen.ListItem{{Kind: "lit", S: "a"}}})
 	}
 	atomPG := gen.NewPG(rng, gen.Scope{Alpha: "ab", Classes: true})
@@ -94,7 +94,7 @@ func c13Variants(rng *gen.Rng, i int) ([]c13Variant, [][]byte) {
 		// referenced before a counted loop AND inside its body: the copies of an unrolled body contain calls
 		// whose target lies outside the loop
 		for ci, cl := range []gen.Loop{{Min: 2, Max: 2, Form: "exactly"}, {Min: 2, Max: -1, Form: "atleast"}, {Min: 3, Max: 4, Form: "between", Lazy: true}} {
-			if ci != i%3 {
+			if ci != (i/2)%3 {
 				continue
 			}
 			sep := gen.Lit{S: "-"}
@@ -109,9 +109,37 @@ func c13Variants(rng *gen.Rng, i int) ([]c13Variant, [][]byte) {
 			add("inline-subroutine-before-and-inside-counted-loop", w, nil, cmdFind(wrapPS(gen.SubDef{Name: "sx", Body: B}, c)...))
 		}
 	}
+	// the named pattern as the FIRST alternative inside a bounded loop (entered, fails, a later alternative
+	// matches), and a lazily skipped first reference followed by a later one
+	{
+		bl := gen.Loop{Min: 0, Max: 2, Form: "atmost"}
+		if rng.Bool() {
+			bl = gen.Loop{Min: 1, Max: 3, Form: "between"}
+		}
+		if !(bl.Min > 0 && !subDup) {
+			a := bl
+			a.Body = gen.Seq{Items: []gen.Node{gen.Or{Alts: []gen.Node{grp, gen.Lit{S: "a"}, gen.Class{Kind: "any"}}}}}
+			w := add("in-place-first-alternative-in-bounded-loop", -1, nil, cmdFind(wrapPS(a)...))
+			b := bl
+			b.Body = gen.Seq{Items: []gen.Node{gen.Or{Alts: []gen.Node{gen.GlobalRef{Name: "gx"}, gen.Lit{S: "a"}, gen.Class{Kind: "any"}}}}}
+			add("global-pattern-first-alternative-in-bounded-loop", w, []gen.Global{g}, cmdFind(wrapPS(b)...))
+		}
+		if subDup {
+			lz := gen.Loop{Min: 0, Max: 1, Lazy: true, Form: "maybe"}
+			a := lz
+			a.Body = grp
+			w := add("in-place-lazily-skipped-then-used", -1, nil, cmdFind(wrapPS(a, gen.Class{Kind: "any"}, grp)...))
+			b := lz
+			b.Body = gen.Seq{Items: []gen.Node{gen.GlobalRef{Name: "gx"}}}
+			add("global-pattern-lazily-skipped-then-used", w, []gen.Global{g}, cmdFind(wrapPS(b, gen.Class{Kind: "any"}, gen.GlobalRef{Name: "gx"})...))
+			c := lz
+			c.Body = gen.Seq{Items: []gen.Node{gen.SubDef{Name: "sx", Body: B}}}
+			add("inline-subroutine-lazily-skipped-then-called", w, nil, cmdFind(wrapPS(c, gen.Class{Kind: "any"}, gen.SubCall{Name: "sx"})...))
+		}
+	}
 	// inside a loop and inside an alternation
 	lp := gen.Loop{Min: 0, Max: -1, Form: "atleast"}
-	if i%2 == 1 {
+	if rng.Bool() {
 		lp = gen.Loop{Min: 1, Max: 2, Form: "between", Lazy: true}
 	}
 	if !(lp.Min > 0 && !subDup) {
@@ -142,14 +170,14 @@ func c13Variants(rng *gen.Rng, i int) ([]c13Variant, [][]byte) {
 	texts = append(texts, sm2.Inputs([]gen.Node{grp, grp}, 2, 12)...)
 	if subDup {
 		sep := gen.Lit{S: "-"}
-		texts = append(texts, sm2.Inputs(wrapPS(grp, sep, grp, sep, grp, sep, grp), 3, 16)...)
+		texts = append(texts, sm2.Inputs(wrapPS(grp, sep, grp, sep, grp, sep, grp), 2, 12)...)
 	}
 	return vs, texts
 }
 
 func C13(r *drv.Run) {
 	r.BuildWorker()
-	nbody, nhist := 700, 60
+	nbody, nhist := 300, 60
 	if !quick(r) {
 		nbody, nhist = 20000, 2500
 	}
